@@ -49,7 +49,15 @@ type FakeServer struct {
 }
 
 func (s *FakeServer) Start() error {
-	ln, err := net.Listen("tcp", "127.0.0.1:0")
+	var ln net.Listener
+	var err error
+	for attempt := 0; attempt < 40; attempt++ {
+		// (a port below the ephemeral range, see randomEvenPort)
+		ln, err = net.Listen("tcp", fmt.Sprintf("127.0.0.1:%d", randomEvenPort()+1))
+		if err == nil {
+			break
+		}
+	}
 	if err != nil {
 		return err
 	}
